@@ -359,3 +359,59 @@ Proof.
   intros N. eexists. split; [reflexivity|]. intros r. cbn. unfold map_set. rewrite aget_aset_other by exact N.
   destruct (aget k' kvs); split; intros E; inversion E; subst; reflexivity.
 Qed.
+
+(* ---- not_inplace_pure, value level: the reading operations return the object unchanged ---- *)
+Lemma aset_same {A} k (c : A) m : aget k m = Some c -> aset k c m = m.
+Proof.
+  induction m as [|[k' v'] r IH]; cbn; [discriminate|].
+  destruct (str_eqb k' k) eqn:E; intros H; [inversion H; subst; reflexivity|rewrite IH; auto].
+Qed.
+Lemma set_nth_same {A} (l : list A) : forall n c, nth_error l n = Some c -> set_nth l n c = l.
+Proof.
+  induction l as [|y r IH]; intros [|n] c H; cbn in *; try discriminate; [inversion H; reflexivity|rewrite IH; auto].
+Qed.
+Lemma set_py_same {A} (l : list A) i c : nth_py l i = Some c -> set_py l i c = l.
+Proof.
+  unfold nth_py, set_py. destruct (_ || _); [discriminate|]. apply set_nth_same.
+Qed.
+Lemma put_same t e c : step t e = inl c -> put t e c = t.
+Proof.
+  destruct t as [| | |s|l|g kvs]; destruct e as [k|i]; cbn; try discriminate; try reflexivity.
+  - destruct (nth_py l i) as [x|] eqn:N; [|discriminate]. intros H. inversion H; subst. rewrite set_py_same; auto.
+  - destruct (aget k kvs) as [x|] eqn:N; [|discriminate]. intros H. inversion H; subst. rewrite aset_same; auto.
+Qed.
+Lemma upd_same {R} (f : tree -> (tree * R) + err) : (forall t t' r, f t = inl (t', r) -> t' = t) ->
+  forall p t t' r, upd p f t = inl (t', r) -> t' = t.
+Proof.
+  intros Hf. induction p as [|e p IH]; intros t t' r H; cbn in H; [eapply Hf; eauto|].
+  destruct (step t e) as [c|x] eqn:S; [|discriminate]. destruct (upd p f c) as [[c' r']|x] eqn:U; [|discriminate].
+  inversion H; subst. rewrite (IH _ _ _ U). apply put_same. exact S.
+Qed.
+Definition is_read (o : op) : bool :=
+  match o with
+  | OGetItem _ _ | OGetAttr _ _ | OGet _ _ _ | OLen _ | OKeys _ | OContains _ _ | OEq _ _ => true
+  | _ => false
+  end.
+Lemma read_not_inplace o t t' r : is_read o = true -> apply_op o t = inl (t', r) -> t' = t.
+Proof.
+  destruct o; cbn [is_read]; try discriminate; intros _ H; cbn [apply_op] in H;
+    (eapply upd_same; [|exact H]); clear; intros t t' r H; cbn beta in H; unfold ret in H.
+  - destruct (step t (PK k)); inversion H; reflexivity.
+  - destruct t as [| | | | |g kvs]; try discriminate. destruct (is_attr g); [|discriminate].
+    destruct (aget k kvs); inversion H; reflexivity.
+  - destruct t as [| | | | |g kvs]; try discriminate. inversion H; reflexivity.
+  - destruct t as [| | |s|l|g kvs]; try discriminate; inversion H; reflexivity.
+  - destruct t as [| | | | |g kvs]; try discriminate. inversion H; reflexivity.
+  - destruct t as [| | | | |g kvs]; try discriminate. inversion H; reflexivity.
+  - inversion H; reflexivity.
+Qed.
+(* a failing operation has no effect either: histories skip it with the object unchanged (run_ops) -- by definition.
+   A whole history of reading operations returns the object it started from *)
+Lemma run_reads ops : forall t okd acc, forallb is_read ops = true -> snd (run_ops ops t okd acc) = t.
+Proof.
+  induction ops as [|o r IH]; intros t okd acc A; cbn; [reflexivity|].
+  cbn in A. apply andb_prop in A. destruct A as [A1 A2].
+  destruct (apply_op o t) as [[t' v]|e] eqn:E.
+  - rewrite (read_not_inplace _ _ _ _ A1 E). apply IH. exact A2.
+  - destruct e; apply IH; exact A2.
+Qed.
